@@ -121,11 +121,9 @@ def check(model, tier):
                 run.fail("R07.3", inst, f"self.{hook}({src(a0)}, ...) is not given the processed source returned by _process_recursive: upstream transfers/materializations would not have happened", fi=f, node=c, details=describe(p))
             if hook == "transfer":
                 ok2 = len(c.args) >= 3 and src(c.args[2]) in f.params
-                capd = env_at(p, j).get(c.args[1].id) if len(c.args) > 1 and isinstance(c.args[1], ast.Name) else None
-                is_dest = isinstance(capd, tuple) and capd[0] == "capture" and capd[2] == ("destination",)
-                if not is_dest and len(c.args) > 1:
-                    rb = resolve_name(p, c.args[1].id, j) if isinstance(c.args[1], ast.Name) else c.args[1]
-                    is_dest = isinstance(rb, ast.expr) and src(rb) == f"{orig}.destination"
+                from ..flow import denotes
+
+                is_dest = len(c.args) > 1 and denotes(p, c.args[1], orig, ("destination",), j)
                 ok2 = ok2 and is_dest
                 if ok2:
                     run.ok("R07.3", inst + ":destination")
@@ -150,8 +148,9 @@ def check(model, tier):
             inst = f"reinsert:{arm}:path{i}"
             if isinstance(first, ast.Call):
                 if call_attr(first) == "apply" and isinstance(first.func, ast.Attribute):
-                    cap = env_at(p).get(src(first.func.value))
-                    if isinstance(cap, tuple) and cap[0] == "capture" and cap[2] == ("operation",):
+                    from ..flow import denotes
+
+                    if denotes(p, first.func.value, orig, ("operation",)):
                         run.ok("R07.5", inst)
                         continue
                 run.fail("R07.5", inst, f"a changed sub-tree is re-inserted with `{src(first)[:60]}` instead of the validating <operation>.apply(...)", fi=f, node=p.node)
